@@ -281,8 +281,15 @@ def rule_recursive(prog, rep):
     c = prog.cls(UNWRAPPABLE)
     got = Interp(prog).eval_method(c, "recursive_unwrap", [])
     want = eval_ref_method(prog, c, RECURSIVE_REF, [])
+    # an early exit for a _dummy without batch dimensions is the zero-iteration case of the vmap loop
+    guard = "        if unwrappable._dummy is None:\n"
+    alts = tuple(eval_ref_method(prog, c, RECURSIVE_REF.replace(guard, g), []) for g in (
+        "        if unwrappable._dummy is None or len(unwrappable._dummy.shape) == 0:\n",
+        "        if unwrappable._dummy is None or unwrappable._dummy.ndim == 0:\n",
+        "        if unwrappable._dummy is None or unwrappable._dummy.shape == ():\n",
+        "        if unwrappable._dummy is None or not unwrappable._dummy.shape:\n") if guard in RECURSIVE_REF)
     compare(rep, "C12.recursive", method_site(prog, c, "recursive_unwrap"), "AbstractUnwrappable.recursive_unwrap",
-            got, want, "recursive_unwrap")
+            got, want, "recursive_unwrap", alternatives=alts)
     # the recursion is the base class's: a wrapper (or a mixin in its MRO) that re-defines it must do the same
     for k in prog.subclasses(UNWRAPPABLE):
         r = prog.find_method(k, "recursive_unwrap")
